@@ -281,6 +281,16 @@ impl SortableStrVec {
             return Err(ZiporaError::out_of_memory(offset + length));
         }
 
+        // The packed entry has 20 bits for the length: refuse what it cannot represent
+        // instead of storing a truncated length (same limit as CompactEntry::new)
+        if length > CompactEntry::MAX_LENGTH {
+            return Err(ZiporaError::invalid_data(format!(
+                "string of {} bytes exceeds the maximum of {} bytes per entry",
+                length,
+                CompactEntry::MAX_LENGTH
+            )));
+        }
+
         // Simplified sequence ID (faster than atomic ops for each string)
         let seq_id = (self.entries.len() & 0xF) as u8;
 
